@@ -117,6 +117,65 @@ def _classify(oc, exc_name, evname='errorvalue'):
     return 'other'
 
 
+def _write_policy_flags_back(fn, pname):
+    """`inline = failonerror == 'inline'; surface = not inline and bool(failonerror)` computed once before the loop and
+    tested in the handler: locals bound exactly once to a boolean expression of the (never re-bound) policy parameter are
+    written back where they are read, so that the handler tests the policy itself again."""
+    import copy as _copy
+    top = fn
+    while top.parent is not None:
+        top = top.parent
+    node = top.node
+    stores = {}
+    for x in ast.walk(node):
+        if isinstance(x, ast.Name) and isinstance(x.ctx, (ast.Store, ast.Del)):
+            stores[x.id] = stores.get(x.id, 0) + 1
+    if stores.get(pname):
+        return
+    defs = {}
+    changed = True
+    while changed:
+        changed = False
+        for x in ast.walk(node):
+            if isinstance(x, ast.Assign) and len(x.targets) == 1 and isinstance(x.targets[0], ast.Name) and \
+                    stores.get(x.targets[0].id) == 1 and x.targets[0].id not in defs:
+                v = x.value
+                names = {y.id for y in ast.walk(v) if isinstance(y, ast.Name)} - {'bool', 'True', 'False'}
+                pure = all(isinstance(y, (ast.Name, ast.Constant, ast.Compare, ast.BoolOp, ast.UnaryOp, ast.Call, ast.And, ast.Or,
+                                          ast.Not, ast.Eq, ast.NotEq, ast.Is, ast.IsNot, ast.Load)) for y in ast.walk(v)) and \
+                    all(isinstance(c, ast.Call) and norm(c.func) == 'bool' for c in ast.walk(v) if isinstance(c, ast.Call))
+                if pure and names and names <= ({pname} | set(defs)) and (pname in names or names & set(defs)):
+                    defs[x.targets[0].id] = x
+                    changed = True
+    if not defs:
+        return
+
+    class W(ast.NodeTransformer):
+        def visit_Name(self, n):
+            if isinstance(n.ctx, ast.Load) and n.id in defs:
+                v = _copy.deepcopy(defs[n.id].value)
+                v = W().visit(v)
+                # bool(x) is x where a truth value is wanted
+                if isinstance(v, ast.Call) and norm(v.func) == 'bool' and len(v.args) == 1:
+                    v = v.args[0]
+                return ast.copy_location(v, n)
+            return n
+
+        def visit_Call(self, n):
+            self.generic_visit(n)
+            if norm(n.func) == 'bool' and len(n.args) == 1 and isinstance(n.args[0], (ast.Name, ast.Compare, ast.BoolOp)):
+                return n.args[0]
+            return n
+    for x in ast.walk(node):
+        if isinstance(x, (ast.If, ast.While, ast.IfExp)):
+            x.test = W().visit(x.test)
+    ast.fix_missing_locations(node)
+    # the defining statements are dead now unless a flag is still read somewhere else (R19.3 looks at that)
+    still = {y.id for y in ast.walk(node) if isinstance(y, ast.Name) and isinstance(y.ctx, ast.Load) and y.id in defs
+             and not any(y in list(ast.walk(d.value)) for d in defs.values())}
+    top.__dict__['_policy_flag_defs'] = [d for nme, d in defs.items() if nme not in still]
+
+
 def run(ctx):
     rep = ctx.report
     rep.explanation = (
@@ -159,6 +218,7 @@ def run(ctx):
     n_sites = 0
     for fn, kind in targets:
         pname = _policy_name(ctx, fn) if not fn.module.name.startswith('petl._controls') else 'failonerror'
+        _write_policy_flags_back(fn, pname)
         if fn in site_names:
             pname = site_names[fn].get(pname, pname)
         sites = _handler_sites(fn, pname)
@@ -444,6 +504,11 @@ def r193(ctx, rep):
                             passthrough = True
                     if inside or passthrough:
                         continue
+                    top = fn
+                    while top.parent is not None:
+                        top = top.parent
+                    if any(any(y is n for y in ast.walk(d)) for d in top.__dict__.get('_policy_flag_defs', [])):
+                        continue        # a flag computed from the policy once, read only in the handler tests (written back)
                     st = n
                     while id(st) in pm and not isinstance(st, ast.stmt):
                         st = pm[id(st)]
